@@ -61,14 +61,25 @@ func kindRank(k string) int {
 // childNames returns the entry names used for the i-th child of a directory of
 // the given kind: awkward names for plain directories, hash-colliding names
 // for sharded ones (so that fanout 8 nests several shard levels).
-func childNames(kind string) []string {
+func childNames(kind string, rot int) []string {
 	// names that differ only by leading/trailing white space are siblings on
-	// purpose: a selector that normalises its path would confuse them
+	// purpose: a selector that normalises its path would confuse them; names
+	// that parse as integers sit at positions other than their value: a lookup
+	// that treats such a segment as an index finds the wrong entry
 	if kind == "hamt" {
 		c := gen.Colliders("k", 12, 3)
-		return []string{c[0], c[1], c[0] + " ", c[2], "é", ".."}
+		return [][]string{
+			{c[0], c[1], c[0] + " ", c[2], "é", ".."},
+			{"1", c[0], c[1], "0", "-1", c[2]},
+			{c[0], c[1], "07", "..", c[2], "2"},
+		}[rot%3]
 	}
-	return []string{"a", "a ", "é", " a", "..", "%2F"}
+	return [][]string{
+		{"a", "a ", "é", " a", "..", "%2F"},
+		{"1", "0", "a", "-1", "07", "+5"},
+		{"%2F", "..", " a", "a", "2", "é"},
+		{"2024", "a", "2", "1", "a ", "0"},
+	}[rot%4]
 }
 
 // enumTrees lists every tree with at most maxNodes nodes whose children are in
@@ -152,7 +163,7 @@ func (t treeSpec) build(s *store.Store, seed *int) (*builtTree, error) {
 		return &builtTree{Kind: "sym", Cid: l.(cidlink.Link).Cid, Size: sz, Content: []byte(target)}, nil
 	case "dir", "dirU", "hamt":
 		bt := &builtTree{Kind: t.Kind, Children: map[string]*builtTree{}}
-		names := childNames(t.Kind)
+		names := childNames(t.Kind, len(t.String())+len(t.Children))
 		var es []gen.DirEntry
 		for i, ch := range t.Children {
 			b, err := ch.build(s, seed)
@@ -249,7 +260,7 @@ func pathVariants(segs []string) (same []string, other []string) {
 		return strings.Join(x, "/")
 	}
 	for i := 0; i <= len(segs); i++ {
-		for _, s := range []string{".", "..", "%20", "nope"} {
+		for _, s := range []string{".", "..", "%20", "nope", "0", "1", "-1"} {
 			other = append(other, ins(i, s))
 		}
 	}
